@@ -580,6 +580,37 @@ class Verifier(Engine):
                 if len(s.items) != 1:
                     raise Unsupported("with open(...) together with other context managers", s)
                 return outs + self.block(s.body, st)
+            cm = None
+            try:
+                if not (isinstance(ce, ast.Call)) and self.external_root(ce) is None:
+                    cm = self.expr(ce, st)
+            except Unsupported:
+                cm = None
+            if cm is not None and isinstance(cm.ty, RecTy) and f"{cm.ty.name}.__exit__" in self.contracts:
+                # a context manager under contract: __enter__ returns the object (trusted: DataHolder.__enter__ is `return self`);
+                # on normal completion of the body __exit__(None, None, None) runs; an exception leaves through __exit__ re-raising it
+                if len(s.items) != 1:
+                    raise Unsupported("several context managers", s)
+                if item.optional_vars is not None:
+                    if not isinstance(item.optional_vars, ast.Name):
+                        raise Unsupported("with ... as <pattern>", s)
+                    st.env[item.optional_vars.id] = cm
+                self.trusted_used.add(f"{self.cur_func}: `with {ast.unparse(ce)}`: __enter__ returns the object; __exit__(None, None, None) runs on normal exit")
+                exit_c = self.contracts[f"{cm.ty.name}.__exit__"]
+                outs2: list[Outcome] = []
+                for o in self.block(s.body, st):
+                    if o.kind != "normal":
+                        outs2.append(o)
+                        continue
+                    params, rty = self.func_sigs[exit_c.name]
+                    args = {params[0][0]: cm}
+                    for pn, pty in params[1:]:
+                        args[pn] = self.coerce(V(self.pre.none_val, NONE), pty)
+                    self.pending_raises = []
+                    self.apply_contract(exit_c, args, rty, o.st, s)
+                    outs2 += self.flush_raises(o.st)
+                    outs2.append(o)
+                return outs2
             if self.external_root(item.context_expr) is None and not (isinstance(item.context_expr, ast.Attribute) and
                                                                       item.context_expr.attr in (self.cur_contract.externals if self.cur_contract else [])):
                 raise Unsupported("with statement over a non-external object", s)
